@@ -1,5 +1,6 @@
 import PyrefactModel.C16.Flow
 import PyrefactModel.C16.SideEffectLemmas
+import PyrefactModel.C16.SafeCalls
 /-!
 # C16 — code is treated as unreachable only when it really is (control-flow part)
 
@@ -67,5 +68,30 @@ example : blocks .none (.forS .nonempty [.simple 0, .ite (.unk 0 true) [.ret] [.
   simp [blocks, blocksL, firstIter, hasBrk, hasBrkL, hasJmp, hasJmpL]
 example : blocks .none (.whileS .tt [.ite (.unk 0 false) [.brk] [], .ret] []) = false := by
   simp [blocks, blocksL, firstIter, hasBrk, hasBrkL, hasJmp, hasJmpL]
+
+/-- **Calls are pointless only when they cannot reach an effect**: the names `parsing.safe_callable_names` admits are
+self-consistent — a name in the result is a side-effect-free builtin the module does not bind itself, or *every* definition of it
+has no effect of its own and calls admitted names only — for every module summary (any number of definitions, redefinitions,
+mutual recursion) -/
+theorem safe_callables_consistent (base : List String) (all : List SafeCalls.Def) (stores otherBound : List String) (n : String)
+    (hn : n ∈ SafeCalls.safeNames base all stores otherBound) :
+    n ∈ SafeCalls.startNames base all stores otherBound ∨
+    (∀ d ∈ all, d.name = n → d.intrinsic = false ∧ ∀ c ∈ d.calls, c ∈ SafeCalls.safeNames base all stores otherBound) :=
+  SafeCalls.safeNames_consistent base all stores otherBound n hn
+
+/-- … hence a call of an admitted name never reaches, at any call depth, a definition with an effect of its own; a builtin
+name that the module defines itself is not taken for the builtin -/
+theorem safe_callables_no_effect (base : List String) (all : List SafeCalls.Def) (stores otherBound : List String)
+    (k : Nat) (n : String) (hn : n ∈ SafeCalls.safeNames base all stores otherBound) :
+    SafeCalls.reachesEffect all k n = false ∧
+    (n ∈ SafeCalls.startNames base all stores otherBound → ∀ d ∈ all, d.name ≠ n) :=
+  ⟨SafeCalls.safeNames_no_effect base all stores otherBound k n hn,
+   SafeCalls.startNames_not_defined base all stores otherBound n⟩
+
+/-- non-vacuity: `f` is pure and calls the pure `g`; `h` prints; `k` is defined twice, once with an effect; `len` is
+redefined by the module -/
+example : SafeCalls.safeNames ["len", "abs"]
+    [⟨"f", false, ["g", "abs"]⟩, ⟨"g", false, []⟩, ⟨"h", true, []⟩, ⟨"k", false, []⟩, ⟨"k", true, []⟩, ⟨"len", true, []⟩] [] []
+    = ["f", "g", "abs"] := by decide
 
 end C16
